@@ -156,7 +156,7 @@ Proof.
   - destruct (move env s vid) as [a| |] eqn:M; try discriminate.
     eapply vonly_trans; [eapply G; eauto|]. repeat dmatch H; try (inv H; apply vonly_refl).
     unfold drop_off_trip in H. repeat dmatch H. inv H. apply vonly_same. reflexivity.
-  - eapply C; eauto.
+  - unfold charge_unless_full in H. repeat dmatch H; try (inv H; apply vonly_refl); eapply C; eauto.
   - repeat dmatch H. intro K0. assert (v_id v = vid) by (apply K0; assumption). revert K0.
     eapply vonly_modv; eauto. unfold mech_idle. destruct (m_kind m); cbn; assumption.
   - repeat dmatch H. eapply C; eauto.
